@@ -2,6 +2,7 @@
 
 import re
 import json
+import math
 import pathlib
 import os
 import textwrap
@@ -582,13 +583,17 @@ class Parser:
             ),
         )
 
-        if not isinstance(expression, (int, float, str)):
+        # bool is a subclass of int: a yaml true/false is not a number
+        if isinstance(expression, bool) or not isinstance(
+            expression, (int, float, str)
+        ):
             raise InvalidTypeError(
                 f"Values in 'constants' section must be of type int, float, or string not{type(expression).__name__}. {name} -> {self.current_file}"
             )
 
         # Expand numerical expression now
         if isinstance(expression, (int, float)):
+            self.check_constant_value(name, expression)
             self.constants[name] = ConstantExpr(
                 name,
                 expression=str(expression),
@@ -598,12 +603,29 @@ class Parser:
             )
         elif isinstance(expression, str):
             expanded, value = self.expand_expression(name, expression)
+            self.check_constant_value(name, value)
             self.constants[name] = ConstantExpr(
                 name,
                 expression=expression,
                 expanded=expanded,
                 value=value,
                 src=self.trim_root(self.current_file),
+            )
+
+    def check_constant_value(self, name: str, value: Union[int, float]):
+        """Check that a constant is a number every output language can write down.
+
+        The value is written into the outputs as python prints it: inf and nan are no
+        literals in python and javascript, True and False are none in javascript and C.
+        """
+        if isinstance(value, bool) or not isinstance(value, (int, float)):
+            raise InvalidTypeError(
+                f"Values in 'constants' section must evaluate to int or float not {type(value).__name__}. {name}: {value} -> {self.current_file}"
+            )
+
+        if isinstance(value, float) and not math.isfinite(value):
+            raise RTMASyntaxError(
+                f"Values in 'constants' section must be finite numbers. {name}: {value} -> {self.current_file}"
             )
 
     def handle_string(self, name: str, value: str):
